@@ -281,7 +281,7 @@ def noise_gauss(a: Union[np.ndarray, List], snr=None, snr_in_db=True, std=1.0):
     <https://en.wikipedia.org/wiki/Signal-to-noise_ratio>`_
 
     """
-    a = np.asarray(a)
+    a = np.asarray(a, dtype=float)
     if snr is not None:
         if not np.isscalar(snr):
             snr = np.asarray(snr)
